@@ -80,11 +80,11 @@ def _expand_inner(ci, history, pre):
         except Exception as e:  # storage unreadable after the op: the check decides what that means
             T.post = None
             viols += check.unreadable(T, e)
+        key = None
         if T.post is not None:
             viols += check.transition(T, counters)
-            key = canon.state_key(w, T.post, T.post_bytes)
-        else:
-            key = None
+            if not check.is_probe(op):
+                key = canon.state_key(w, T.post, T.post_bytes)
         w.close()
         out.append((op, T.outcome, key, T.post, viols))
     return out, counters
